@@ -38,8 +38,9 @@ LIVENESS = "CloseLeadsToEos Terminates"
 LIVENESS_EXT = "StopLeadsToEos"
 
 
-def K(cap, p1, p2="", p3="", own=False, nodrop=(), stop=False, chan=False, cmax=0):
-    return dict(cap=cap, p1=p1, p2=p2, p3=p3, own=own, nodrop=tuple(nodrop), stop=stop, chan=chan, cmax=cmax)
+def K(cap, p1, p2="", p3="", own=False, nodrop=(), stop=False, chan=False, cmax=0, ncons=1, cancel=0):
+    return dict(cap=cap, p1=p1, p2=p2, p3=p3, own=own, nodrop=tuple(nodrop), stop=stop, chan=chan, cmax=cmax,
+                ncons=ncons, cancel=cancel)
 
 
 # (label, constants, replay?) -- every configuration is model-checked; `replay` ones are also executed edge by edge
@@ -97,6 +98,10 @@ def label_of(k):
         s += "_keep" + "".join(map(str, k["nodrop"]))
     if k["stop"]:
         s += "_stop"
+    if k.get("ncons", 1) > 1:
+        s += f"_cons{k['ncons']}"
+    if k.get("cancel"):
+        s += f"_cancel{k['cancel']}"
     if k.get("chan"):
         s = "chan_" + s + (f"_cmax{k['cmax']}" if k["cmax"] else "")
     return s
@@ -113,7 +118,7 @@ def harness_cfg(k):
     if k["p3"]:
         progs["3"] = [OPS[c] for c in k["p3"]]
     return {"type": "cfg", "cap": k["cap"], "progs": progs, "shared": not k["own"], "nodrop": list(k["nodrop"]),
-            "stop": k["stop"], "label": label_of(k), "variant": "chan" if k.get("chan") else "track", "cmax": k.get("cmax", 0)}
+            "stop": k["stop"], "label": label_of(k), "variant": "chan" if k.get("chan") else "track", "cmax": k.get("cmax", 0), "ncons": k.get("ncons", 1)}
 
 
 def write_cfg(path, k, emit=False, deviations=(), invariants=SAFETY, properties=""):
@@ -132,6 +137,8 @@ CONSTANTS
   UseStop = {"TRUE" if k['stop'] else "FALSE"}
   Variant = "{'chan' if k.get('chan') else 'track'}"
   CMax = {k.get('cmax', 0)}
+  NCons = {k.get('ncons', 1)}
+  CCancel = {k.get('cancel', 0)}
   Deviations = {dev}
 VIEW view
 {"INVARIANTS " + invariants if invariants else ""}
@@ -151,21 +158,26 @@ def proc_of(state, p):
 
 
 def expect(f, t, p, cap, k=None):
-    """What the real objects must show after thread p stepped from state f to state t."""
+    """What the real objects must show after thread p stepped from state f to state t.
+    State layout: MC_Ring!StateId. p >= 1000: the caller drops consumer (p - 1000)'s pending recv() future."""
     if p == 0:
         return {"lbl": "teardown", "live": len(t[14]) - len(t[15])}
+    cancel = p >= 1000
+    p = p % 1000
     tp, fp = proc_of(t, p), proc_of(f, p)
     lbl = LABELS[tp[1] - 1]
-    tc, fc = proc_of(t, C), proc_of(f, C)
+    cons = sorted(q[0] for q in t[12])
     ret, got = "", 0
-    if p == C:
-        fl, tl = LABELS[fc[1] - 1], LABELS[tc[1] - 1]
-        if t[18] != f[18] or len(t[17]) != len(f[17]) or \
+    if p in cons and not cancel:
+        fl, tl = LABELS[fp[1] - 1], lbl
+        tres = dict((q[0], q[1]) for q in t[18])[p]
+        fres = dict((q[0], q[1]) for q in f[18])[p]
+        if tres != fres or len(t[17]) != len(f[17]) or \
                 (fl not in ("call", "rdrop_close", "rdrop_notify") and tl in ("call", "done")):
-            ret = RESULTS[t[18] - 1]
+            ret = RESULTS[tres - 1]
             if len(t[17]) != len(f[17]):
                 got = t[17][-1]
-    elif p != S:
+    elif p != S and not cancel:
         if tp[10] != fp[10]:
             ret = RESULTS[tp[14] - 1]
             if k and k.get("chan") and ret in ("WouldBlock", "Closed") and k["p%d" % p][fp[10] - 1] == "t":
@@ -175,9 +187,12 @@ def expect(f, t, p, cap, k=None):
         win = tp[2] % cap
     elif lbl in ("pop_r", "pop_sh"):
         win = tp[4] % cap
+    woken = 0
+    for i, cid in enumerate(cons):
+        if LABELS[proc_of(t, cid)[1] - 1] == "c_sleep" and cid not in t[11]:
+            woken |= 1 << i
     return {"lbl": lbl, "head": t[0], "tail": t[1], "closed": bool(t[5]), "ended": bool(t[6]), "active": t[7],
-            "poplocked": t[4] != 0, "plocked": t[3] != 0,
-            "woken": LABELS[tc[1] - 1] == "c_sleep" and t[11] == 0,
+            "poplocked": t[4] != 0, "plocked": t[3] != 0, "woken": woken,
             "live": len(t[14]) - len(t[15]), "ret": ret, "got": got, "win": win}
 
 
@@ -434,7 +449,7 @@ def trace_to_sched(path):
     for st in states[1:]:
         s = st[1]
         w = s["who"]
-        sched.append([w, "teardown" if w == 0 else s["pc"][str(w)]])
+        sched.append([w, "teardown" if w == 0 else s["pc"][str(w % 1000)]])
     return sched
 
 
